@@ -134,7 +134,26 @@ func FailProgram(r *Rand) FailCase {
 		fn := fmt.Sprintf("var rec\nrec = func(n) {\nif n >= %d { return 0 }\nreturn rec(n + 1) + 1\n}\n", depth)
 		body, w := wrapFail(r, "rec(0)", true)
 		return FailCase{Src: head + fn + body, Class: fmt.Sprintf("recursion-%d", depth), Wrap: w}
+	case k < 69:
+		// zero-argument recursion: one stack slot per frame, so the FRAME limit (1024) is reached
+		// before the value stack is exhausted; `d` is a captured counter
+		depth := []int{10, 1019, 1020, 1021, 1022, 1023, 1024, 1025, 1500, 100000}[r.pick(10)]
+		fn := fmt.Sprintf("d := 0\nvar rec0\nrec0 = func() {\nd += 1\nif d >= %d { return 0 }\nreturn rec0() + 1\n}\n", depth)
+		body, w := wrapFail(r, "rec0()", true)
+		return FailCase{Src: head + fn + body, Class: fmt.Sprintf("frames-%d", depth), Wrap: w}
 	case k < 72:
+		if r.pick(2) == 0 {
+			// a Go panic (index out of range while the callee's locals are initialised, sp < 2048)
+			// raised in a frame that has its own handler: must be delivered to that frame's catch
+			nl := []int{30, 60, 120}[r.pick(3)]
+			var sb strings.Builder
+			sb.WriteString("var rec\nrec = func(n) {\n")
+			for i := 0; i < nl; i++ {
+				fmt.Fprintf(&sb, "l%d := n\n", i)
+			}
+			sb.WriteString("try {\nreturn rec(n + 1) + l0\n} catch e {\nlog = append(log, n)\nreturn n\n}\n}\nreturn rec(0)\n")
+			return FailCase{Src: head + sb.String(), Class: fmt.Sprintf("recursion-locals-caught-in-frame-%d", nl), Wrap: "try-catch"}
+		}
 		// recursion where the deepest frame itself catches the overflow and goes on
 		src := head + "var rec\nrec = func(n) {\ntry {\nreturn rec(n + 1) + 1\n} catch e {\nlog = append(log, e.Name)\nreturn 100\n}\nreturn 2\n}\nreturn rec(0)\n"
 		if r.Bool() {
